@@ -240,7 +240,14 @@ fn main() {
 
     let listen_task = {
         let core = core.clone();
-        async move { core.listen().await }
+        async move {
+            match core.listen().await {
+                // The listeners have been stopped by a submitted shutdown: the sessions are
+                // still winding down, the interrupt task exits once all of them have finished
+                Ok(()) => std::future::pending().await,
+                Err(e) => Err(e),
+            }
+        }
     };
 
     let reload_tls_hosts_task = {
